@@ -18,6 +18,7 @@
 #include <sys/uio.h>
 
 #include "values.h"
+#include "layout.h"
 #include "vf.h"
 #include "c18_oracle.h"
 
@@ -427,11 +428,9 @@ static void case_nd_prng(vf_rng *r)
  * all parts, are exactly the input points that are in range in both
  * dimensions, in order, each once.  line() of a part has its usr points.
  */
-static void run_polyline2(size_t n, const double *x, const double *y, const double (*rg)[2], const char *desc)
+/* a crossing fraction that underflows double to 0 cannot be stored as non-zero code (see notes): such data are not decided */
+static bool fraction_underflow(size_t n, const double *x, const double *y, const double (*rg)[2])
 {
-	RT tr(2);
-	tr.set(0, rg[0][0], rg[0][1]); tr.set(1, rg[1][0], rg[1][1]);
-	/* a crossing fraction that underflows double to 0 cannot be stored as non-zero code (see notes): such data are not decided */
 	for (size_t i = 0; i + 1 < n; i++) {
 		const double *v[2] = { x, y };
 		for (int d = 0; d < 2; d++) {
@@ -439,17 +438,28 @@ static void run_polyline2(size_t n, const double *x, const double *y, const doub
 				double out = v[d][i + w], in = v[d][i + 1 - w];
 				if (in < rg[d][0] || in > rg[d][1]) continue;
 				volatile double f = out < rg[d][0] ? (rg[d][0] - out) / (in - out) : out > rg[d][1] ? (out - rg[d][1]) / (out - in) : 1;
-				if (f == 0) { vf_count("data:fraction-underflow", 1); return; }
+				if (f == 0) { vf_count("data:fraction-underflow", 1); return true; }
 			}
 		}
 	}
+	return false;
+}
+static void check_polyline2(const mpt::polyline &pl, bool ok, size_t n, const double *x, const double *y, const double (*rg)[2], const char *desc);
+static void run_polyline2(size_t n, const double *x, const double *y, const double (*rg)[2], const char *desc)
+{
+	RT tr(2);
+	tr.set(0, rg[0][0], rg[0][1]); tr.set(1, rg[1][0], rg[1][1]);
+	if (fraction_underflow(n, x, y, rg)) return;
 	mpt::value_store st[2];
 	if (!st[0].set(mpt::span<const double>(x, n)) || !st[1].set(mpt::span<const double>(y, n))) vf_inconclusive("value_store::set refused %zu doubles", n);
 	mpt::polyline pl;
 	vf_at("polyline::set");
 	bool ok = pl.set(tr, mpt::span<const mpt::value_store>(st, 2));
 	vf_count("polyline::set", 1);
-
+	check_polyline2(pl, ok, n, x, y, rg, desc);
+}
+static void check_polyline2(const mpt::polyline &pl, bool ok, size_t n, const double *x, const double *y, const double (*rg)[2], const char *desc)
+{
 	std::vector<size_t> vis;
 	for (size_t i = 0; i < n; i++) if (x[i] >= rg[0][0] && x[i] <= rg[0][1] && y[i] >= rg[1][0] && y[i] <= rg[1][1]) vis.push_back(i);
 
@@ -553,6 +563,145 @@ static void case_polyline2_prng(vf_rng *r)
 	vf_sample("%s", desc);
 }
 
+/* --------------------------------- transformations without visible range */
+/*
+ * transform::part() of a plain subclass and layout::graph::transform3 without
+ * TransformLimit: everything is drawn.  Runs of 1..200000 points are split by
+ * repeated part() calls: 0 < raw <= remaining, usr == raw, no cut/trim,
+ * totals equal the length, no more parts than the 16 bit counters require.
+ */
+class Plain : public mpt::transform
+{
+public:
+	int dimensions() const override { return 1; }
+};
+static double *big_data()
+{
+	static double *d;
+	if (!d) {
+		d = static_cast<double *>(malloc(200001 * sizeof(*d)));
+		if (!d) vf_inconclusive("out of memory");
+		for (size_t i = 0; i <= 200000; i++) d[i] = (double) (i % 97) / 97;
+	}
+	return d;
+}
+static void split_all(const mpt::transform &tr, const char *name, long len)
+{
+	const double *val = big_data();
+	long pos = 0, parts = 0, usr = 0;
+	while (pos < len) {
+		vf_at("transform::part");
+		mpt::linepart lp = tr.part(0, val + pos, (int) (len - pos));
+		vf_count("transform::part (no range)", 1);
+		long left = len - pos;
+		if (vf_logging) vf_log("  %s part(len=%ld) -> {raw=%u usr=%u cut=%u trim=%u}", name, left, lp.raw, lp.usr, lp._cut, lp._trim);
+		VF_CHECK(lp.raw >= 1, "cxx:part:no-progress", "%s::part() with %ld values left of %ld: raw == 0 (usr=%u)", name, left, len, lp.usr);
+		VF_CHECK((long) lp.raw <= left, "cxx:part:raw-exceeds-input", "%s::part() with %ld values left: raw=%u", name, left, lp.raw);
+		VF_CHECK(lp.usr == lp.raw && !lp._cut && !lp._trim, "cxx:part:norange", "%s::part() without visible range, %ld values left: {raw=%u usr=%u cut=%u trim=%u}", name, left, lp.raw, lp.usr, lp._cut, lp._trim);
+		pos += lp.raw; usr += lp.usr; parts++;
+		if (lp.raw == 65535) vf_count("state:part-at-limit-65535", 1);
+	}
+	VF_CHECK(pos == len && usr == len, "cxx:part:total", "%s: parts cover %ld raw / %ld drawn of %ld values", name, pos, usr, len);
+	VF_CHECK(parts <= len / 65535 + 1, "cxx:part:count", "%s: %ld parts for %ld values", name, parts, len);
+}
+static uint64_t norange_count() { return vf_thorough ? 3000 : 300; }
+static void case_norange(uint64_t idx, vf_rng *r)
+{
+	static const long lens[] = { 1, 2, 65534, 65535, 65536, 65537, 131069, 131070, 131071, 131072, 131073, 196605, 196606, 196607, 196608, 196609, 200000 };
+	long len = idx < sizeof(lens) / sizeof(*lens) ? lens[idx] : vf_chance(r, 1, 3) ? (long) (65536 * (1 + vf_below(r, 3))) + vf_range(r, -3, 3) : 1 + (long) vf_below(r, 200000);
+	if (len > 200000) len = 200000;
+	vf_fp_u64(0x170); vf_fp_u64(len);
+	if (len > 65535) vf_nontrivial();
+	vf_log("no visible range, %ld values", len);
+	Plain pl;
+	split_all(pl, "transform (default part)", len);
+	mpt::layout::graph::transform3 t3;
+	split_all(t3, "layout::graph::transform3 (no limit)", len);
+	/* the same through linepart::array::apply on an empty array */
+	{
+		mpt::linepart::array a;
+		vf_at("linepart::array::apply");
+		bool ok = a.apply(pl, 0, mpt::span<const double>(big_data(), len));
+		vf_count("linepart::array::apply", 1);
+		VF_CHECK(ok && a.length_raw() == len && a.length_user() == len && a.length() <= len / 65535 + 1, "cxx:part:total", "apply() of %ld values with a plain transform: %ld parts, raw %ld, drawn %ld", len, (long) a.length(), a.length_raw(), a.length_user());
+	}
+	vf_count("monitor:norange-runs", 1);
+	vf_sample("transform without visible range: %ld values split by part() (plain subclass, transform3) and by linepart::array::apply", len);
+}
+
+/* --------------------------------------------- histories of data sets */
+/*
+ * 2..4 successive data sets on one polyline (set, optionally clear, set ...)
+ * and on one cycle stage (set_data / transform, replace data, transform):
+ * after every transformation the parts and drawn points belong to the
+ * CURRENT data only.
+ */
+static void case_history(vf_rng *r)
+{
+	static const double rg[2][2] = { { 0, 10 }, { 0, 10 } };
+	int steps = vf_range(r, 2, 4);
+	bool use_cycle = vf_chance(r, 1, 2);
+	size_t n = 2 + vf_below(r, 10);
+	RT tr(2);
+	tr.set(0, rg[0][0], rg[0][1]); tr.set(1, rg[1][0], rg[1][1]);
+	mpt::polyline pl;
+	mpt::reference<mpt::cycle>::type cyc;
+	std::vector<double> x(64), y(64);
+	char desc[400];
+	std::string all = use_cycle ? "cycle stage:" : "polyline:";
+
+	vf_fp_u64(0x4157); vf_fp_u64(use_cycle);
+	for (int s = 0; s < steps; s++) {
+		bool keep_y = use_cycle && s && vf_chance(r, 1, 2), cleared = false;
+		if (!use_cycle && vf_chance(r, 1, 2)) n = 2 + vf_below(r, 10);
+		/* data that start / end outside make the first part carry a cut / trim */
+		unsigned vis = 8 + vf_below(r, 8);
+		gen_data(r, x.data(), n, 1, 9, vis);
+		if (!keep_y) gen_data(r, y.data(), n, 1, 9, vis);
+		for (size_t i = 0; i < n; i++) { if (x[i] == 0 || x[i] == 10) x[i] = 5; if (y[i] == 0 || y[i] == 10) y[i] = 5; }
+		if (vf_chance(r, 1, 3)) x[0] = -3; else if (vf_chance(r, 1, 3)) x[n - 1] = 12;
+		if (vf_chance(r, 1, 4)) for (size_t i = 0; i < n; i++) { x[i] = 1 + (double) i / 8; if (!keep_y) y[i] = 2 + (double) i / 16; }   /* everything in range */
+		vf_fp(x.data(), n * 8); vf_fp(y.data(), n * 8);
+		size_t l = snprintf(desc, sizeof(desc), "%s data set %d of %d, n=%zu:", use_cycle ? "cycle stage" : "polyline", s + 1, steps, n);
+		for (size_t i = 0; i < n && l + 50 < sizeof(desc); i++) l += snprintf(desc + l, sizeof(desc) - l, " (%.6g,%.6g)", x[i], y[i]);
+		vf_log("%s", desc);
+		if (fraction_underflow(n, x.data(), y.data(), rg)) break;
+		bool ok;
+		if (use_cycle) {
+			vf_at("cycle::set_data");
+			int r0 = cyc.set_data(0, x.data(), n), r1 = keep_y ? 0 : cyc.set_data(1, y.data(), n);
+			if (r0 < 0 || r1 < 0) vf_inconclusive("cycle::set_data failed (%d, %d)", r0, r1);
+			mpt::cycle::stage *st = cyc.begin();
+			VF_CHECK(st != 0, "cxx:cycle:no-stage", "%s: no stage after set_data", desc);
+			VF_CHECK(st->values().points().size() == 0, "cxx:cycle:not-invalidated", "%s: stage view holds %ld points after the data were replaced", desc, (long) st->values().points().size());
+			vf_at("cycle::stage::transform");
+			ok = st->transform(tr);
+			vf_count("cycle::stage::transform", 1);
+			check_polyline2(st->values(), ok, n, x.data(), y.data(), rg, desc);
+		} else {
+			if (s && vf_chance(r, 1, 2)) {
+				vf_at("polyline::clear");
+				pl.clear();
+				cleared = true;
+				vf_count("polyline::clear", 1);
+				/* a cleared polyline draws nothing and keeps nothing of the old data */
+				VF_CHECK(pl.parts().size() == 0 && pl.points().size() == 0 && !(pl.begin() != pl.end()), "cxx:polyline:clear-leaves-parts", "%s: after clear() %ld parts and %ld points remain", desc, (long) pl.parts().size(), (long) pl.points().size());
+			}
+			mpt::value_store st[2];
+			if (!st[0].set(mpt::span<const double>(x.data(), n)) || !st[1].set(mpt::span<const double>(y.data(), n))) vf_inconclusive("value_store::set refused");
+			vf_at("polyline::set");
+			ok = pl.set(tr, mpt::span<const mpt::value_store>(st, 2));
+			vf_count("polyline::set", 1);
+			check_polyline2(pl, ok, n, x.data(), y.data(), rg, desc);
+		}
+		if (s) vf_count("monitor:history-steps", 1);
+		all += cleared ? " clear+set" : " set";
+		all += "(n=" + std::to_string(n) + ")";
+	}
+	vf_nontrivial();
+	vf_sample("%s last: %s", all.c_str(), desc);
+}
+
 /* ----------------------------------------------------------------- entry */
 static uint64_t n_a1() { return vf_thorough ? 400000 : 40000; }
 static uint64_t n_set() { return vf_thorough ? 2000 : 200; }
@@ -560,8 +709,9 @@ static uint64_t n_a2() { return vf_thorough ? 400000 : 40000; }
 static uint64_t n_pl() { return vf_thorough ? 200000 : 20000; }
 static uint64_t n_ndp() { return vf_thorough ? 3000000 : 150000; }
 static uint64_t n_pl2() { return vf_thorough ? 500000 : 40000; }
+static uint64_t n_hist() { return vf_thorough ? 500000 : 40000; }
 
-extern "C" uint64_t vf_cases(void) { return n_a1() + n_set() + n_a2() + n_pl() + nd_ex_count() + n_ndp() + pl2_ex_count() + n_pl2(); }
+extern "C" uint64_t vf_cases(void) { return n_a1() + n_set() + n_a2() + n_pl() + nd_ex_count() + n_ndp() + pl2_ex_count() + n_pl2() + norange_count() + n_hist(); }
 extern "C" void vf_case(uint64_t idx, vf_rng *r)
 {
 	if (idx < n_a1()) { case_apply1(r); return; }
@@ -577,5 +727,9 @@ extern "C" void vf_case(uint64_t idx, vf_rng *r)
 	if (idx < n_ndp()) { case_nd_prng(r); return; }
 	idx -= n_ndp();
 	if (idx < pl2_ex_count()) { case_polyline2_exhaustive(idx); return; }
-	case_polyline2_prng(r);
+	idx -= pl2_ex_count();
+	if (idx < n_pl2()) { case_polyline2_prng(r); return; }
+	idx -= n_pl2();
+	if (idx < norange_count()) { case_norange(idx, r); return; }
+	case_history(r);
 }
